@@ -275,14 +275,18 @@ def gen_large_case(seed, i):
     leaf = {'name': 'zqleaf', 'version': 1, 'iface': {'classes': ['K0_zqleaf'], 'funcs': [], 'insts': [], 'multis': []},
             'items': [cls('K0_zqleaf', 'zqleaf_v1'), ['assign', 'x_zqleaf_v1', '1']]}
     hub = {'name': 'zqhub', 'version': 1, 'iface': {'classes': ['K0_zqhub'], 'funcs': [], 'insts': [], 'multis': []},
-           'items': [['star', 'zqleaf'], ['class', 'K0_zqhub', ['K0_zqleaf'], ['ca_zqhub_v1'], []], ['assign', 'x_zqhub_v1', '1']]}
+           'items': [['star', 'zqleaf'], ['tryimport', 'zqlate_zqhub'],
+                     ['class', 'K0_zqhub', ['K0_zqleaf'], ['ca_zqhub_v1'], []], ['assign', 'x_zqhub_v1', '1']]}
     mods = [leaf, hub]
     for j in range(n):
         nm = 'zqo%04d' % j
         mods.append({'name': nm, 'version': 1, 'iface': {'classes': [], 'funcs': [], 'insts': [], 'multis': []},
                      'items': [['assign', 'x_%s' % nm, str(j)]]})
     look = {'kind': 'assist', 'source': 'from zqhub import *\nK0_zqhub().\n', 'position': [2, 11], 'file': 'zqmain.py'}
-    ops = [{'op': 'request', 'req': look}]
+    ops = [{'op': 'request', 'req': look},
+           # the optional import of the hub is looked at (and fails) long before the module appears
+           {'op': 'request', 'req': {'kind': 'assist', 'source': 'import zqhub\nzqhub.zqlate_zqhub.\n', 'position': [2, 19],
+                                     'file': 'zqmain.py'}}]
     order = list(range(n))
     r.shuffle(order)
     for j in order:
@@ -290,6 +294,13 @@ def gen_large_case(seed, i):
         ops.append({'op': 'request', 'compare': False,
                     'req': {'kind': 'assist', 'source': 'from zqhub import *\nimport %s\n%s.\n' % (nm, nm),
                             'position': [3, len(nm) + 1], 'file': 'zqmain.py'}})
+    if i % 2 == 1 or r.random() < 0.25:
+        # after hundreds of quiet requests the optional module of the hub appears (nothing else changes)
+        ops.append({'op': 'create', 'newmod': late_module('zqlate_zqhub', 1, init=r.random() < 0.4), 'dt_ms': r.choice((1000, 60000))})
+        ops.append({'op': 'request', 'req': {'kind': 'assist', 'source': 'import zqhub\nzqhub.zqlate_zqhub.\n', 'position': [2, 19],
+                                             'file': 'zqmain.py'}})
+        ops.append({'op': 'request', 'req': {'kind': 'location', 'source': 'from zqhub import zqlate_zqhub\nzr = zqlate_zqhub.KL_zqlate_zqhub\n',
+                                             'position': [2, 20], 'file': 'zqmain.py'}})
     leaf2 = copy.deepcopy(leaf)
     leaf2['version'] = 2
     leaf2['items'] = _retag(leaf2['items'], 'zqleaf_v1', 'zqleaf_v2')
